@@ -449,3 +449,80 @@ func specIsRawArray(n JsonNode) bool {
 	_, ok := n.(jsonArray)
 	return ok
 }
+
+// validAny: a native Go value as produced by encoding/json or yaml.v2 (or built by the library
+// itself: maps with string keys may hold ready-made JsonNodes) whose embedded JsonNodes are valid.
+// Slices and yaml maps hold native values only.
+func validAny(x interface{}) bool {
+	switch v := x.(type) {
+	case JsonNode:
+		return validNode(v)
+	case []interface{}:
+		return forallInt(0, len(v), func(i int) bool { return !isJsonNode(v[i]) && validAny(v[i]) })
+	case map[string]interface{}:
+		return forallAnyKey(v, func(k string) bool { return validAny(v[k]) })
+	case map[interface{}]interface{}:
+		return validYaml(v)
+	}
+	return true
+}
+
+func isJsonNode(x interface{}) bool {
+	_, ok := x.(JsonNode)
+	return ok
+}
+
+// validYaml: every value of a yaml.v2 map is a valid native value that is not a JsonNode.
+// (Opaque to the verifier: instantiated per iteration of a range over the map.)
+func validYaml(m map[interface{}]interface{}) bool {
+	for _, v := range m {
+		if isJsonNode(v) || !validAny(v) {
+			return false
+		}
+	}
+	return true
+}
+
+// forallAnyKey reports whether f holds for every key of m.
+func forallAnyKey(m map[string]interface{}, f func(k string) bool) bool {
+	for k := range m {
+		if !f(k) {
+			return false
+		}
+	}
+	return true
+}
+
+// specAllNodes: a map with string keys whose values are all ready-made JsonNodes.
+func specAllNodes(x interface{}) bool {
+	m, ok := x.(map[string]interface{})
+	return ok && forallAnyKey(m, func(k string) bool { return isJsonNode(m[k]) })
+}
+
+// validPatchOps: the Value of every JSON Patch operation is a plain native value.
+func validPatchOps(p []patchElement) bool {
+	return forallInt(0, len(p), func(i int) bool { return validAny(p[i].Value) })
+}
+
+// specScalarAny: a native scalar that NewJsonNode always accepts.
+func specScalarAny(x interface{}) bool {
+	switch x.(type) {
+	case float64, int, string, bool, nil:
+		return true
+	}
+	return false
+}
+
+// specIsSubseq: c is a subsequence of s (greedy matching, which is complete for subsequences).
+func specIsSubseq(c, s []interface{}) bool {
+	if len(c) == 0 {
+		return true
+	}
+	if len(s) == 0 {
+		return false
+	}
+	if c[0] == s[0] {
+		return specIsSubseq(c[1:], s[1:])
+	}
+	return specIsSubseq(c, s[1:])
+}
